@@ -9,6 +9,7 @@
 #include "harness/typed_load.hpp"
 #include "bitserializer/types/std/vector.h"
 #include "bitserializer/types/std/map.h"
+#include "bitserializer/types/std/list.h"
 #include "bitserializer/types/std/tuple.h"
 #include "bitserializer/types/std/chrono.h"
 #include <chrono>
@@ -20,6 +21,7 @@ struct Cls { int a = 0; std::string b; template <class A> void Serialize(A& ar) 
 struct Row { std::string a; int b = 0; template <class A> void Serialize(A& ar) { ar << BS::KeyValue("a", a) << BS::KeyValue("b", b); } };
 struct RowW { std::u16string k; template <class A> void Serialize(A& ar) { ar << BS::KeyValue("k", k); } };
 struct RowW32 { std::u32string k; template <class A> void Serialize(A& ar) { ar << BS::KeyValue("k", k); } };
+struct Holder3 { std::vector<Cls> k0; std::vector<std::vector<int>> k1; std::map<std::string, Cls> k2; template <class A> void Serialize(A& ar) { ar << BS::KeyValue("k0", k0) << BS::KeyValue("k1", k1) << BS::KeyValue("k2", k2); } };
 enum class En { One, Two };
 REGISTER_ENUM(En, { {En::One, "One"}, {En::Two, "Two"} })
 
@@ -87,7 +89,7 @@ template <class TChar> static void runConverters(bsx::Ctx& c, const std::string&
 
 static void body(bsx::Ctx& c) {
 	const bool thorough = c.tier == "thorough";
-	int scen = c.choose(8, "scenario");
+	int scen = c.choose(9, "scenario");
 	auto policyOpts = [](int pol) { return lib::opts(pol == 0, pol == 0); };
 	if (scen == 0) {
 		// ---- MsgPack: all words up to length L over the class-complete byte alphabet; the last symbol is looped inside
@@ -231,6 +233,35 @@ static void body(bsx::Ctx& c) {
 			}
 		}
 		if (it == 2 && shift == 10 && mode == 0) c.sample(sigbase + " shift=10: u64 item at offset 250, cut at every byte 250..261");
+	} else if (scen == 8) {
+		// ---- shape mismatch: arrays and objects whose elements / members have every JSON-ish shape (object, empty object, array, empty
+		// array, null, number, string, bool), loaded into containers of classes, of containers and of maps in the three nesting formats under
+		// both policies. A value of unexpected shape must be rejected or skipped - never loop, recurse or allocate without bound.
+		static const std::vector<std::pair<const char*, Val>> el = {{"obj", Val::map({{Val::str("a"), Val::integer(1)}, {Val::str("b"), Val::str("t")}})}, {"empty_obj", Val::map()}, {"arr", Val::arr({Val::integer(1), Val::integer(2)})},
+			{"empty_arr", Val::arr()}, {"null", Val::nil()}, {"num", Val::integer(7)}, {"str", Val::str("a")}, {"bool", Val::boolean(true)}};
+		const int NE = static_cast<int>(el.size());
+		int arch = c.choose(3, "archive"); int rootMap = c.choose(2, "root"); int n = 1 + c.choose(3, "count");
+		Val root = rootMap ? Val::map() : Val::arr(); std::string shapeName;
+		for (int i = 0; i < n; ++i) { int k = c.choose(NE, "element"); shapeName += std::string(i ? "," : "") + el[static_cast<size_t>(k)].first; if (rootMap) root.m.emplace_back(Val::str("k" + std::to_string(i)), el[static_cast<size_t>(k)].second); else root.a.push_back(el[static_cast<size_t>(k)].second); }
+		if (!tl::canCarry(arch, root)) { c.outcome("n/a:format_cannot_carry"); return; }
+		std::string in = tl::emit(arch, root);
+		std::string sigbase = std::string("C02/shape_mismatch/") + archName(arch) + (rootMap ? "/root=object" : "/root=array");
+		c.describe(sigbase, "elements=" + shapeName + " doc=" + (arch == tl::MsgPack ? bsx::hex(in) : in));
+		c.nontrivial(sigbase + shapeName);
+		if (n == 2 && shapeName == "obj,null" && arch == 1) c.sample(sigbase + " elements=" + shapeName);
+		for (int st = 0; st < 2; ++st) for (int pol = 0; pol < 2; ++pol) {
+			auto o = policyOpts(pol); std::string sfx = std::string(st ? "/stream" : "/mem") + (pol ? "/pol=SS" : "/pol=TT"); std::string info = "elements=" + shapeName;
+			auto all = [&](auto tag) { using A = typename decltype(tag)::type;
+				c.evals(4);
+				// the four targets of one document share a child process (a hang / unbounded growth in any of them is fatal for the child)
+				judgeIsolated(c, sigbase + (rootMap ? "/targets=map<string,class>,map<string,vector<int>>,class_of_containers,map<string,map<string,int>>" : "/targets=vector<class>,vector<vector<int>>,vector<map<string,int>>,list<class>") + sfx, in.size(), info, [&] {
+					Probe w; auto acc = [&](const Probe& p) { if (w.cls.empty() || p.cls == "nonstd") w.cls = p.cls; w.peak = std::max(w.peak, p.peak); w.largest = std::max(w.largest, p.largest); w.refused += p.refused; };
+					if (!rootMap) { acc(loadAs<A, std::vector<Cls>>(in, st == 1, o)); acc(loadAs<A, std::vector<std::vector<int>>>(in, st == 1, o)); acc(loadAs<A, std::vector<std::map<std::string, int>>>(in, st == 1, o)); acc(loadAs<A, std::list<Cls>>(in, st == 1, o)); }
+					else { acc(loadAs<A, std::map<std::string, Cls>>(in, st == 1, o)); acc(loadAs<A, std::map<std::string, std::vector<int>>>(in, st == 1, o)); acc(loadAs<A, Holder3>(in, st == 1, o)); acc(loadAs<A, std::map<std::string, std::map<std::string, int>>>(in, st == 1, o)); }
+					return w; }, 20); };
+			struct TMP { using type = tl::MP; }; struct TJS { using type = tl::JS; }; struct TXM { using type = tl::XM; };
+			if (arch == tl::MsgPack) all(TMP{}); else if (arch == tl::Json) all(TJS{}); else all(TXM{});
+		}
 	} else if (scen == 7) {
 		// ---- UTF payloads: every byte string of length <= 3 (thorough 4) over a UTF-8 class alphabet (ASCII, tails, over-long and 2/3/4-octet
 		// leads, surrogate lead ED, F4/F5 limits, the retired 5/6-octet leads F8/FC, FE/FF) as the string value of a MsgPack / JSON / CSV / XML
